@@ -140,10 +140,11 @@ type c09Thread struct {
 }
 
 type c09Scenario struct {
-	name string
-	pre  []c08Op // serial set-up (uses the C08 op vocabulary); times are virtual seconds
-	now  int64   // virtual "now" at which the concurrent part runs
-	ths  []c09Thread
+	name   string
+	budget int     // schedules to run (0: the tier's limit); set where Go's map order makes the schedule tree vary from run to run
+	pre    []c08Op // serial set-up (uses the C08 op vocabulary); times are virtual seconds
+	now    int64   // virtual "now" at which the concurrent part runs
+	ths    []c09Thread
 }
 
 type c09Result struct {
@@ -309,7 +310,7 @@ func runC09(out *vlib.Out, sc *c09Scenario, prefixSched []int) c09Result {
 
 	// ---- run the schedule
 	doneTh := make([]bool, n)
-	stepNo := make([]int, n)       // steps taken by each thread
+	stepNo := make([]int, n)          // steps taken by each thread
 	sweepSteps := make([][]string, n) // per sweeper: what each of its removal steps removed ("" = nothing)
 	reloadDone := false
 	var sched []int
@@ -328,7 +329,9 @@ func runC09(out *vlib.Out, sc *c09Scenario, prefixSched []int) c09Result {
 			break
 		}
 		pick := runnable[0]
-		if step < len(prefixSched) {
+		if step < len(prefixSched) && !doneTh[prefixSched[step]] {
+			// (where the sweeper's map order makes a run differ from the one the prefix was derived from,
+			// the prefix may name a thread that has already finished: the lowest runnable one runs instead)
 			pick = prefixSched[step]
 		}
 		choices = append(choices, runnable)
@@ -542,10 +545,10 @@ func c09Scenarios() []*c09Scenario {
 		{name: "reingest-expired", pre: old, now: 660, ths: []c09Thread{S, I(1, 3, 0, false, false), H(1, 3, 0)}},
 		// two expired registrations on one phantom (the sweeper's order is Go's map order), one of them
 		// looked up and activated meanwhile, a worker re-registering the other
-		{name: "two-expired", pre: old2, now: 660, ths: []c09Thread{S, H(1, 3, 0), I(1, 2, 1, false, false)}},
+		{name: "two-expired", budget: 1500, pre: old2, now: 660, ths: []c09Thread{S, H(1, 3, 0), I(1, 2, 1, false, false)}},
 		// one configuration reload among the workers: the covert policy changes under their feet
 		{name: "reload+ingest2", pre: nil, now: 100, ths: []c09Thread{I(0, 0, 0, false, false), I(0, 1, 1, true, false), C}},
-		{name: "reload+dup+handler", pre: nil, now: 100, ths: []c09Thread{I(0, 0, 0, true, false), I(0, 0, 0, false, false), C, H(0, 0, 0)}},
+		{name: "reload+dup+handler", budget: 3000, pre: nil, now: 100, ths: []c09Thread{I(0, 0, 0, true, false), I(0, 0, 0, false, false), C, H(0, 0, 0)}},
 	}
 	if vlib.Tier() == "thorough" {
 		scs = append(scs,
@@ -607,7 +610,7 @@ func TestVerifC09(t *testing.T) {
 			c09Case(out, res)
 			out.Count("scenario:" + sc.name)
 			count++
-			if count >= limit {
+			if count >= limit || (sc.budget > 0 && count >= sc.budget*limit/12000) {
 				exhaustive = false
 				break
 			}
@@ -641,7 +644,11 @@ func TestVerifC09(t *testing.T) {
 		}
 		if !exhaustive {
 			// beyond the DFS budget: random schedules
-			for i := 0; i < limit/4; i++ {
+			nrand := limit / 4
+			if sc.budget > 0 {
+				nrand = sc.budget * limit / 12000 / 4
+			}
+			for i := 0; i < nrand; i++ {
 				p := make([]int, 64)
 				for j := range p {
 					p[j] = -1
@@ -970,7 +977,7 @@ func TestVerifC09Race(t *testing.T) {
 	Stat().AddStatsModule(rm, false)
 	Stat().AddStatsModule(GetProxyStats(), false)
 	Stat().AddStatsModule(lv, false)
-	dur := 1500 * time.Millisecond
+	dur := 3 * time.Second
 	if vlib.Tier() == "thorough" {
 		dur = 8 * time.Second
 	}
